@@ -1,8 +1,7 @@
 """C01 - compiled SQL returns exactly the multiset the program denotes."""
-import json
+import os
 
 from harness import common
-from harness import evidence
 from harness import gen
 from harness import semrun
 
@@ -10,9 +9,8 @@ PROP = 'C01'
 
 
 def Cases(tier):
-  import os
-  n = int(os.environ.get('VERIF_N', 0)) or (600 if tier == 'quick' else 12000)
-  rng = common.Rng('c01')
+  n = int(os.environ.get('VERIF_N', 0)) or (400 if tier == 'quick' else 8000)
+  rng = common.Rng(PROP)
   cases = []
   for i in range(n):
     prog, query, feats = gen.Generate(rng, gen.CORE)
@@ -26,52 +24,13 @@ REQUIRED = ['join', 'disjunction', 'dup_fact', 'arith', 'assign', 'inc_bind',
 
 
 def Run(tier):
-  clock = common.Clock()
-  cases = Cases(tier)
-  out = semrun.RunCases(PROP, cases)
-  missing = [f for f in REQUIRED if not out.feature_counts.get(f)]
-  coverage = {
-      'states': max(1, out.tlc_states),
-      'transitions': max(1, out.tlc_states),
-      'traces_validated_against_impl': out.preds_judged,
-      'evaluations': out.preds_judged,
-      'distinct_nontrivial': len(out.nontrivial),
-      'programs': out.cases,
-      'rule': ('random well-typed range-restricted core-fragment programs '
-               '(harness/gen.py profile CORE, seed VERIF_SEED); each defined '
-               'predicate is compiled and executed on SQLite and TLC decides '
-               'observed rows = LSem!Den as bags; distinct = distinct '
-               '(program, predicate) pairs whose denoted bag is non-empty'),
-      'samples': out.samples,
-      'feature_counts': dict(out.feature_counts),
-      'impl_status': dict(out.impl_status),
-      'known_findings_hit': dict(out.known),
-      'disagreements': len(out.disagreements),
-      'exhaustive': False,
-  }
-  evidence.Write(PROP, tier, 'model_checking', coverage, clock(),
-                 violations=len(out.violations),
-                 assumptions=['LSem.tla encodes docs/learn/logica.md',
-                              'harness/ir.py renderer is trusted',
-                              'fragment exclusions of harness/gen.py'])
-  if out.tlc_errors:
-    print('MACHINERY: TLC errors:', json.dumps(out.tlc_errors)[:3000])
-    return 2
-  if missing:
-    print('MACHINERY: constructs never generated:', missing)
-    return 2
-  print('C01 %s: %d programs, %d predicates judged, %d ok, %d disagreements '
-        '(%d known), %.1fs (impl %.1fs, tlc %.1fs)' % (
-            tier, out.cases, out.preds_judged, out.ok,
-            len(out.disagreements), sum(out.known.values()), clock(),
-            out.t_impl, out.t_tlc))
-  return 1 if out.violations else 0
+  return semrun.StandardRun(
+      PROP, tier, Cases(tier), REQUIRED,
+      rule='random well-typed range-restricted core-fragment programs (harness/gen.py profile CORE, seed VERIF_SEED); each defined predicate is compiled and executed on SQLite by the real pipeline and TLC decides observed rows = LSem!Den as bags with the column names',
+      assumptions=['spec/LSem.tla + LValues.tla encode docs/learn/logica.md',
+                   'harness/ir.py renderer is trusted',
+                   'fragment exclusions of harness/gen.py (R2 of DESIGN.md)'])
 
 
 def Replay(path):
-  from harness import semcheck
-  with open(path) as f:
-    rp = json.load(f)
-  case = rp['case']
-  out = semrun.RunCases(PROP, [case], tag='c01replay')
-  return 1 if out.violations else 0
+  return semrun.StandardReplay(PROP, path)
